@@ -97,6 +97,9 @@ func loadPattern(repo, pattern string, allDeps bool) (*Ctx, error) {
 			}
 		})
 	}
+	c.buildCanon()
+	c.buildFuncCanon()
+	c.notes = append(c.notes, c.canon.notes...)
 	c.xb = newXBuilder(c)
 	return c, nil
 }
@@ -132,6 +135,8 @@ func (c *Ctx) Func(rel, name string) *Fn {
 		return nil
 	}
 	var obj *types.Func
+	name = strings.NewReplacer("(", "", "*", "", ")", "").Replace(name)
+	name = c.ActualFunc(rel, name)
 	recv, meth := "", name
 	if i := strings.LastIndex(name, "."); i >= 0 {
 		recv, meth = name[:i], name[i+1:]
@@ -142,7 +147,7 @@ func (c *Ctx) Func(rel, name string) *Fn {
 			obj = o
 		}
 	} else {
-		if tn, ok := p.Types.Scope().Lookup(recv).(*types.TypeName); ok {
+		if tn, ok := p.Types.Scope().Lookup(c.ActualType(rel, recv)).(*types.TypeName); ok {
 			o, _, _ := types.LookupFieldOrMethod(types.NewPointer(tn.Type()), true, p.Types, meth)
 			if f, ok := o.(*types.Func); ok {
 				obj = f
@@ -170,6 +175,18 @@ func (c *Ctx) fnOf(obj *types.Func) *Fn {
 func (c *Ctx) short(s string) string {
 	s = strings.ReplaceAll(s, modPath+"/", "")
 	s = strings.ReplaceAll(s, modPath+".", "libipni.")
+	if c.canon != nil {
+		for _, r := range c.canon.renames {
+			if strings.Contains(s, r[0]) {
+				s = replaceIdent(s, r[0], r[1])
+			}
+		}
+		for _, r := range c.canon.fnRenames {
+			if strings.Contains(s, r[0]) {
+				s = replaceName(s, r[0], r[1])
+			}
+		}
+	}
 	return s
 }
 
